@@ -558,6 +558,73 @@ def _impl_ts(case):
         return _exc_out(e)
 
 
+ITER_SCALARS = ["int", "float", "str", "bytes", "Decimal", "complex", "bool", "datetime", "date", "time", "timedelta", "UUID"]
+ITER_ARRAYS = ["list", "tuple", "set", "frozenset"]
+ITER_KINDS = ["sized", "lazy", "iterable", "getitem"]
+
+
+def _impl_iter(case):
+    """convert a counting input of the given kind and report how many of its items were pulled"""
+    import warnings
+    warnings.simplefilter("ignore")
+    from utype import Options, Rule, Schema
+    n = case["n"]
+    tgt = case["target"]
+    pulled = {"n": 0}
+    items = [("k%d" % i, i) for i in range(n)] if tgt in ("dict", "dataclass") else list(range(1, n + 1))
+
+    def walk():
+        for x in items:
+            pulled["n"] += 1
+            yield x
+    k = case["in_kind"]
+    if k == "sized":
+        class CL(list):
+            def __iter__(self):
+                return walk()
+        value = CL(items)
+    elif k == "lazy":
+        value = walk()
+    elif k == "iterable":
+        class It:
+            def __iter__(self):
+                return walk()
+        value = It()
+    else:
+        class Gi:
+            def __getitem__(self, i):
+                if i >= n:
+                    raise IndexError(i)
+                pulled["n"] += 1
+                return items[i]
+        value = Gi()
+    opts = Options(no_explicit_cast=bool(case.get("nec")), no_data_loss=bool(case.get("ndl")))
+    if tgt == "dataclass":
+        T = type("IS", (Schema,), {"__annotations__": {"k0": int}, "k0": 0, "__module__": __name__,
+                                  "__options__": Options(addition=True, no_explicit_cast=bool(case.get("nec")), no_data_loss=bool(case.get("ndl")))})
+        T = Rule.annotate(list, T)          # the data class as an item type: its registered converter gets the input
+        value = [value]
+    else:
+        T = Rule.annotate(_htypes()[tgt], constraints={})
+    try:
+        T(value, context=opts.make_context())
+        out = "ok"
+    except Exception as e:
+        out = type(e).__name__
+    return {"out": out, "pulled": pulled["n"], "n": n}
+
+
+def iter_cases():
+    out = []
+    for tgt in ITER_SCALARS + ITER_ARRAYS + ["dict", "dataclass"]:
+        for k in ITER_KINDS:
+            for nec in (False, True):
+                for ndl in (False, True):
+                    for n in ((1, 40) if k == "sized" else (40,)):
+                        out.append({"kind": "iter", "target": tgt, "in_kind": k, "nec": nec, "ndl": ndl, "n": n})
+    return out
+
+
 def impl(case):
     kind = case["kind"]
     if kind == "rule":
@@ -572,6 +639,8 @@ def impl(case):
         return _impl_ts(case)
     if kind == "hostile":
         return _impl_hostile(case)
+    if kind == "iter":
+        return _impl_iter(case)
     raise ValueError(kind)
 
 
@@ -639,6 +708,85 @@ def _hv(j, depth=0):
         if "eq" in what.split("+") and "hash" not in what.split("+"):
             Bad.__hash__ = lambda self: 1
         return Bad()
+    if k == "lazy":
+        # lazy / endless / very long iterables; `how` selects the protocol they offer
+        import itertools
+        how = j["how"]
+
+        def endless():
+            i = 0
+            while True:
+                i += 1
+                yield (("k%d" % i, i) if how == "genpairs" else i)
+        if how in ("gen", "genpairs"):
+            return endless()
+        if how == "count":
+            return itertools.count()
+        if how == "cycle":
+            return itertools.cycle(["a"])
+        if how == "repeat":
+            return itertools.repeat(1)
+        if how == "map":
+            return map(str, itertools.count())
+        if how == "range":
+            return range(10 ** 12)
+        if how == "longgen":
+            return (i for i in range(10 ** 10))
+
+        class It:
+            pass
+        if how == "iterobj":
+            It.__iter__ = lambda self: self
+            It.__next__ = lambda self: 1
+        elif how == "iterable":
+            It.__iter__ = lambda self: endless()
+        elif how == "getitem":
+            It.__getitem__ = lambda self, i: i
+        elif how == "slowseq":
+            It.__len__ = lambda self: 10 ** 12
+            It.__getitem__ = lambda self, i: i
+        elif how == "next_raises":
+            It.__iter__ = lambda self: self
+
+            def nx(self):
+                raise OSError("next")
+            It.__next__ = nx
+        elif how == "next_forever":
+            It.__iter__ = lambda self: self
+
+            def nf(self):
+                while True:
+                    pass
+            It.__next__ = nf
+        elif how == "len_forever":
+            def lf(self):
+                while True:
+                    pass
+            It.__len__ = lf
+            It.__iter__ = lambda self: iter([1])
+        elif how == "iter_raises":
+            def it(self):
+                raise OSError("iter")
+            It.__iter__ = it
+        elif how == "getitem_raises":
+            def gi(self, i):
+                raise OSError("getitem")
+            It.__getitem__ = gi
+            It.__len__ = lambda self: 3
+        elif how == "len_raises":
+            def ln(self):
+                raise OSError("len")
+            It.__len__ = ln
+            It.__iter__ = lambda self: iter([1, 2])
+        return It()
+    if k == "selfref":
+        if j.get("kind") == "dict":
+            d = {}
+            d["a"] = d
+            return d
+        lst = []
+        lst.append(lst)
+        return lst
     if k == "badmap":
         import collections.abc
 
@@ -1527,6 +1675,16 @@ H_VALUES = {
     "td": _V("timedelta"), "'2020-01-01'": "2020-01-01", "'P'+'1'*3000": "P" + "1" * 3000, "'1:'*2000": "1:" * 2000, "'a=1&b=2'": "a=1&b=2", "'a,b'": "a,b",
     "{'kind':[]}": _V("dict", kv=[["kind", _V("list", xs=[])]]), "'\\x00'": "\x00", "'١٢٣'": "١٢٣", "'1_000'": "1_000", "'0x10'": "0x10", "' 12 '": " 12 ",
 }
+for _how in ("gen", "genpairs", "count", "cycle", "repeat", "map", "range", "longgen", "iterobj", "iterable", "getitem", "slowseq",
+             "next_raises", "iter_raises", "getitem_raises", "len_raises", "next_forever", "len_forever"):
+    H_VALUES["lazy_" + _how] = _V("lazy", how=_how)
+H_VALUES.update({
+    "[lazy_gen]": _V("list", xs=[_V("lazy", how="gen")]), "{'a':lazy_gen}": _V("dict", kv=[["a", _V("lazy", how="gen")]]),
+    "(lazy_count,1)": _V("tuple", xs=[_V("lazy", how="count"), 1]), "{'a':[lazy_iterobj]}": _V("dict", kv=[["a", _V("list", xs=[_V("lazy", how="iterobj")])]]),
+    "selfref_list": _V("selfref", kind="list"), "selfref_dict": _V("selfref", kind="dict"), "[selfref]": _V("list", xs=[_V("selfref", kind="list")]),
+    "bad_index": _V("bad", what="index"), "bad_float": _V("bad", what="float"), "bad_iter": _V("bad", what="iter"), "bad_next": _V("bad", what="iter+next"),
+    "bad_getitem": _V("bad", what="getitem+len"), "bad_contains": _V("bad", what="contains"), "bad_format": _V("bad", what="format"),
+})
 HUGE_EXP = {"'1e999999'": "1e999999", "D1e9999999": _V("dec", s="1e9999999"), "b'1e9999999'": _V("bytes", hex=b"-1e9999999".hex())}
 
 
@@ -1592,8 +1750,10 @@ def hostile_cases(rng, n, full=False):
     out = []
     tnames, vnames = list(H_TYPES), list(H_VALUES)
     if full:
-        for tn in tnames:
+        for ti, tn in enumerate(tnames):
             for vn in vnames:
+                if vn in ("lazy_genpairs", "lazy_next_forever", "lazy_len_forever") and ti % 5:
+                    continue        # inputs that are expected to be killed by the watchdog (5 s each): every fifth type only
                 out.append({"kind": "hostile", "t": tn, "vn": vn, "target": {"type": H_TYPES[tn]}, "value": H_VALUES[vn]})
     for _ in range(n):
         r = rng.random()
@@ -1650,6 +1810,25 @@ def hostile_cases(rng, n, full=False):
                 c["kwargs"] = {"zz": v}
             out.append(c)
     return out
+
+
+def _mapping_reachable(j):
+    """the target contains a dict origin or a data class somewhere: `to_dict` may be asked to read pairs"""
+    if isinstance(j, dict):
+        if j.get("origin") == "dict" or "schema" in j or j.get("plain") == "dict":
+            return True
+        return any(_mapping_reachable(x) for x in j.values())
+    if isinstance(j, list):
+        return any(_mapping_reachable(x) for x in j)
+    return False
+
+
+def _lazy_how(v, hows):
+    if isinstance(v, dict):
+        if v.get("v") == "lazy" and v.get("how") in hows:
+            return True
+        return any(_lazy_how(x, hows) for x in v.get("xs", [])) or any(_lazy_how(a, hows) or _lazy_how(b, hows) for a, b in v.get("kv", []))
+    return False
 
 
 def _has_self_ref(j):
@@ -1771,6 +1950,7 @@ class C04(Check):
         for _ in range(n_s):
             out.append(self._pick(rng, gens))
         out += [gen_ts(rng) for _ in range(n_ts)]
+        out += iter_cases()
         out = [c for c in out if not (c["kind"] == "ts" and ts_near_boundary(ts_exact(c["x"])))]
         out += hostile_cases(rng, n_h, full=(tier == "thorough"))
         if tier == "thorough":
@@ -1839,6 +2019,9 @@ class C04(Check):
             line.update(fields=case["fields"], positional=case["positional"], pos_only=case["pos_only"],
                         exclude_indexes=case["exclude_indexes"], pos_var_index=case["pos_var_index"], pos_t=case.get("pos_t"),
                         addition_t=case.get("addition_t"), return_t=case.get("return_t"), args=case["args"], kwargs=case["kwargs"])
+        elif k == "iter":
+            line.update(target=case["target"], in_kind=case["in_kind"], n=case["n"], nec=case["nec"], ndl=case["ndl"],
+                        legacy_dt=bool(case.get("legacy", {}).get("dtContains")))
         elif k == "ts":
             q = ts_exact(case["x"])
             line["ts"] = q if isinstance(q, str) else [q < 0, str(abs(q.numerator)), str(q.denominator)]
@@ -1849,6 +2032,11 @@ class C04(Check):
     def compare(self, case, io, mo):
         if case["kind"] == "hostile":
             return None
+        if case["kind"] == "iter" and isinstance(mo, dict) and "consumes" in mo and isinstance(io, dict) and "pulled" in io:
+            drained = io["pulled"] >= io["n"]
+            if drained != mo["consumes"]:
+                return f"input walked through: impl pulled {io['pulled']}/{io['n']} ({io['out']}), model consumes={mo['consumes']}"
+            return None
         if not isinstance(mo, dict) or "out" not in mo:
             return f"driver: {mo}"
         if not isinstance(io, dict):
@@ -1857,6 +2045,13 @@ class C04(Check):
             return "interpreter crashed"
         if case["kind"] == "ts":
             return self._compare_ts(case, io, mo)
+        if case["kind"] == "iter":
+            if io.get("hang"):
+                return "the conversion of a finite counting input did not return"
+            drained = io["pulled"] >= io["n"]
+            if drained != mo.get("consumes"):
+                return f"input walked through: impl pulled {io['pulled']}/{io['n']} ({io['out']}), model consumes={mo.get('consumes')}"
+            return None
         if io.get("hang"):
             return None if mo["out"] == "diverge" else f"real code hangs, model says {mo['out']}"
         if mo["out"] == "diverge":
@@ -1913,10 +2108,24 @@ class C04(Check):
             return f"no outcome: {io}"
         scripted_div = any(isinstance(e[3], dict) and "div" in e[3] for e in case.get("script", []))
         if io.get("hang"):
+            if case["kind"] == "hostile":
+                vals = [case.get("value")] + list(case.get("args", [])) + list(case.get("kwargs", {}).values())
+                if _mapping_reachable(case.get("target")) and any(_lazy_how(v, ("next_forever",)) for v in vals):
+                    return None     # the input's own __next__ never returns and a mapping-like target may ask for pairs
+                if any(_lazy_how(v, ("len_forever",)) for v in vals):
+                    return None     # the input's own __len__ never returns: a truthiness / len() test (`not data`) hangs inside the input
             return None if scripted_div else "the call did not return within the watchdog (5 s)"
         if io.get("crash"):
             return "the interpreter died"
         if io.get("out") == "decl-error":
+            return None
+        if case["kind"] == "iter":
+            # the proved statement, on the real converter: a scalar target never walks through a lazy / iterable /
+            # __getitem__ input, an array target only through a sized (multi) one
+            lazy = case["in_kind"] != "sized"
+            drained = io["pulled"] >= io["n"]
+            if drained and lazy and case["target"] not in ("dict", "dataclass"):
+                return f"a {case['target']} target consumed a {case['in_kind']} input to the end ({io['pulled']} items): an endless one would never return"
             return None
         out = io.get("out")
         if out == "ok" and case["kind"] == "schema":
@@ -1971,6 +2180,8 @@ class C04(Check):
             vals = [case.get("value")] + list(case.get("args", [])) + list(case.get("kwargs", {}).values())
             if any(_huge_exp_value(v) for v in vals):
                 return "huge-exponent-int"
+            if _mapping_reachable(case.get("target")) and any(_lazy_how(v, ("genpairs",)) for v in vals):
+                return "endless-pairs-into-mapping"
             if (_has_self_ref(case.get("target")) and any(_deep_dict(v) for v in vals)
                     and (case.get("ropts") or {}).get("collect_errors") and (case.get("ropts") or {}).get("override")):
                 return "union-retries-exponential"
@@ -2011,6 +2222,8 @@ class C04(Check):
     def key(self, case, io):
         if not isinstance(io, dict):
             return None
+        if case["kind"] == "iter":
+            return json.dumps(case, sort_keys=True) if io.get("pulled") else None
         if case["kind"] in ("hostile", "ts"):
             if io.get("out") == "ok":
                 return None
@@ -2042,6 +2255,19 @@ class C04(Check):
             broken.append("rule.py: fewer `except Exception` handlers than the model mirrors")
         if tr.count("while abs(") != 2:
             broken.append("transform.py: the model mirrors exactly two timestamp loops")
+        # Model/C04Iter.lean `isMulti`: the isinstance tuple of utils.functional.multi, read from the source text
+        import ast
+        want = ["list", "set", "frozenset", "tuple", "type({}.values())", "type({}.keys())"]
+        got = None
+        for node in ast.walk(ast.parse((REPO / "utype/utils/functional.py").read_text())):
+            if isinstance(node, ast.FunctionDef) and node.name == "multi":
+                for call in ast.walk(node):
+                    if isinstance(call, ast.Call) and getattr(call.func, "id", None) == "isinstance" and isinstance(call.args[1], ast.Tuple):
+                        got = [ast.unparse(e) for e in call.args[1].elts]
+        if got != want:
+            broken.append(f"functional.multi accepts {got}; Model/C04Iter.isMulti mirrors {want} (sized builtin containers only)")
+        if tr.count("multi(") != 5:
+            broken.append(f"transform.py has {tr.count('multi(')} multi() sites, Model/C04Iter.consumes mirrors 5")
         return broken
 
     def finish_evidence(self, ev, tier):
